@@ -13,69 +13,23 @@
 (* denotations.  o.same tells that the object returned is the very object passed as `data`: what  *)
 (* it holds is judged like any other table (o.out is always the content), only for an empty join  *)
 (* it is the named deviation EmptyJoin.                                                            *)
-EXTENDS Perdictable, Batch
+(* o.opts (when present) are the optional parameters the perdictable was made with.                *)
+(* A line with api "step" is one step of a SESSION on caller-owned tables (a call, or an edit of   *)
+(* the caller between calls) with the pool read before and after it: see PerdictableSess.tla, which *)
+(* also holds the verdict operators.                                                                *)
+EXTENDS PerdictableSess, Batch
 
-RowKeys(rows)   == {rows[n].key : n \in 1..Len(rows)}
-UniqueKeys(rows)== Cardinality(RowKeys(rows)) = Len(rows)
-MapOfRows(rows) == [k \in RowKeys(rows) |-> rows[CHOOSE n \in 1..Len(rows) : rows[n].key = k].v]
-OptOf(x)        == IF x.kind = "absent" THEN <<>> ELSE IF x.kind = "scalar" THEN <<"scalar", x.v>> ELSE <<MapOfRows(x.rows)>>
-SpellOfRows(rows) == [k \in RowKeys(rows) |-> rows[CHOOSE n \in 1..Len(rows) : rows[n].key = k].sp]
-CfgOf(o) == [ins    |-> [i \in 1..Len(o.c.ins) |-> [kind |-> o.c.ins[i].kind, v |-> o.c.ins[i].v, map |-> MapOfRows(o.c.ins[i].rows)]],
-             defs   |-> o.c.defs,
-             data   |-> OptOf(o.c.data),
-             expiry |-> OptOf(o.c.expiry),
-             today  |-> o.today,
-             spell  |-> [t \in 1..(Len(o.c.ins) + 2) |->
-                            IF t <= Len(o.c.ins) THEN SpellOfRows(o.c.ins[t].rows)
-                            ELSE IF t = Len(o.c.ins) + 1 THEN SpellOfRows(o.c.data.rows) ELSE SpellOfRows(o.c.expiry.rows)]]
-WellFormed(o) == /\ \A i \in 1..Len(o.c.ins) : UniqueKeys(o.c.ins[i].rows)
-                 /\ UniqueKeys(o.c.data.rows) /\ UniqueKeys(o.c.expiry.rows)
-                 /\ Len(o.c.defs) = Len(o.c.ins)
-                 /\ o.same \in BOOLEAN
-
-\* the rows of a returned table, clause by clause
-TableVerdict(cf, nk, alpha, out, cols, pre) ==
-    IF out.kind = "empty" THEN pre \o "key_set"                 \* rows are expected, none came back
-    ELSE IF out.kind # "table" THEN pre \o "not_a_table"
-    ELSE IF out.cols # cols THEN pre \o "columns"
-    ELSE IF RowKeys(out.rows) # JoinKeys(cf) THEN pre \o "key_set"
-    ELSE IF ~UniqueKeys(out.rows) THEN pre \o "one_row_per_key"          \* the right keys, one of them more than once
-    ELSE IF [n \in 1..Len(out.rows) |-> out.rows[n].key] \notin KeyOrders(JoinKeys(cf), nk, alpha) THEN pre \o "not_sorted_by_key"
-    ELSE ""
-
-RunVerdict(o) ==
-    LET cf == CfgOf(o)  nk == o.c.nk  out == o.out  want == RunCalls(cf, nk)
-        view == IF o.same THEN [kind |-> "data"] ELSE out IN     \* EmptyJoin: the supplied object itself, whatever it holds
-    IF out.kind = "exc" THEN "raised"
-    ELSE IF AllScalar(cf) THEN
-         IF out \notin RunOutcomes(cf, nk, o.alpha) THEN "scalar_result"
-         ELSE IF o.calls # want THEN "scalar_calls" ELSE ""
-    ELSE IF JoinKeys(cf) = {} THEN
-         IF view \notin RunOutcomes(cf, nk, o.alpha) THEN "empty_join"
-         ELSE IF o.calls # <<>> THEN "extra_call" ELSE ""
-    ELSE LET tv == TableVerdict(cf, nk, o.alpha, out, RunCols(nk), "") IN
-         IF tv # "" THEN tv
-         ELSE IF \E n \in 1..Len(out.rows) : CachedPast(cf, out.rows[n].key) /\ out.rows[n].v # cf.data[1][out.rows[n].key] THEN "kept_value"
-         ELSE IF \E n \in 1..Len(out.rows) : ~CachedPast(cf, out.rows[n].key) /\ out.rows[n].v # F(Args(cf, out.rows[n].key)) THEN "computed_value"
-         ELSE IF out \notin RunOutcomes(cf, nk, o.alpha) THEN "not_accepted"
-         ELSE IF \E x \in Range(o.calls) : Count(o.calls, x) > Count(want, x) THEN "extra_call"
-         ELSE IF \E x \in Range(want) : Count(o.calls, x) < Count(want, x) THEN "missing_call"
-         ELSE IF ~SameBag(o.calls, want) THEN "calls" ELSE ""
-
-JoinVerdict(o) ==
-    LET cf == CfgOf(o)  nk == o.c.nk  out == o.out IN
-    IF out.kind = "exc" THEN "join_raised"
-    ELSE IF JoinKeys(cf) = {} THEN (IF out \in JoinOutcomes(cf, nk, o.alpha) THEN "" ELSE "join_empty")
-    ELSE LET tv == TableVerdict(cf, nk, o.alpha, out, JoinCols(cf, nk), "join_") IN
-         IF tv # "" THEN tv
-         ELSE IF \E n \in 1..Len(out.rows) : out.rows[n].vals # Args(cf, out.rows[n].key) THEN "join_values"
-         ELSE IF out \notin JoinOutcomes(cf, nk, o.alpha) THEN "join_not_accepted" ELSE ""
+OptsOf(o) == IF "opts" \in DOMAIN o THEN o.opts ELSE DefaultOpts
+WellFormed(o) == WellFormedJ(o.c) /\ o.same \in BOOLEAN /\ InOptDomain(OptsOf(o))
 
 \* clause names starting with "harness_" are errors of the driver, not of the library
 Verdict(o) ==
-    IF ~WellFormed(o) THEN "harness_malformed"
-    ELSE IF o.api = "run" THEN (IF ~InDomain(CfgOf(o)) THEN "harness_outside_domain" ELSE RunVerdict(o))
-    ELSE IF o.api = "join" THEN (IF o.c.data.kind # "absent" \/ o.c.expiry.kind # "absent" THEN "harness_outside_domain" ELSE JoinVerdict(o))
+    IF o.api = "step" THEN StepVerdict(o)
+    ELSE IF ~WellFormed(o) THEN "harness_malformed"
+    ELSE IF o.api = "run" THEN (IF ~InDomain(CfgOfJ(o.c, o.today)) THEN "harness_outside_domain"
+                                ELSE RunVerdictJ(o.c, o.today, o.alpha, OptsOf(o), o.out, o.calls, o.same))
+    ELSE IF o.api = "join" THEN (IF o.c.data.kind # "absent" \/ o.c.expiry.kind # "absent" THEN "harness_outside_domain"
+                                 ELSE JoinVerdictJ(o.c, o.today, o.alpha, o.out))
     ELSE "harness_unknown_api"
 
 Init == BatchInit
